@@ -44,7 +44,8 @@ def shift1d(ctx, rng, idx):
     model2, mesh2, disc2, f2 = tw.build(num=disc.num if share else None, model=model if share else None)
     cfl = float(rng.uniform(0.1, 0.4) if not implicit else rng.uniform(0.2, 1.5))
     nstep = int(rng.integers(1, 7 if not implicit else 4))
-    ctx.describe(n=n, shift=k, integrator=iname, cfl=cfl, nstep=nstep, **spec.desc())
+    dirs = {"dtlocal": True} if rng.random() < 0.25 else {}        # a quarter of the twins run with one time step per cell
+    ctx.describe(n=n, shift=k, integrator=iname, cfl=cfl, nstep=nstep, directives=dirs, **spec.desc())
     r1 = [np.roll(x, k) for x in disc.rhs(f)]; r2 = disc2.rhs(f2)
     if not (_finite(r1) and _finite(r2)):
         raise core.Skip("nonfinite rhs")
@@ -55,8 +56,8 @@ def shift1d(ctx, rng, idx):
     for i in range(model.neq):
         ctx.close("rhs1d", np.max(np.abs(r1[i] - r2[i])) * dx / fs[i], 1e-10, "shift1d/rhs-not-shifted/" + tag, {"eq": i, "n": n, "shift": k, "rolled original": r1[i], "twin": r2[i]}, cls="rhs1d")
     try:
-        e1 = gen.integ(iname)(mesh, disc).solve(f, cfl, stop={"maxit": nstep})[-1]
-        e2 = gen.integ(iname)(mesh2, disc2).solve(f2, cfl, stop={"maxit": nstep})[-1]
+        e1 = gen.integ(iname)(mesh, disc).solve(f, cfl, stop={"maxit": nstep}, directives=dict(dirs))[-1]
+        e2 = gen.integ(iname)(mesh2, disc2).solve(f2, cfl, stop={"maxit": nstep}, directives=dict(dirs))[-1]
     except np.linalg.LinAlgError:
         raise core.Skip("singular")
     d1 = [np.roll(x, k) for x in e1.data]
@@ -70,7 +71,7 @@ def shift1d(ctx, rng, idx):
         err = np.max(np.abs(d1[i] - e2.data[i])) / sc
         if err > tol:
             from .c13 import _amplification
-            amp = _amplification(spec, iname, cfl, nstep, rng)
+            amp = _amplification(spec, iname, cfl, nstep, rng, dirs)
             if not amp <= 1e4:
                 ctx.skip("twin:unstable-configuration(amplification>1e4)")
                 continue
